@@ -1,7 +1,12 @@
-"""setup: build the static Lean library (Core, Props, drivers' imports). Gen files are produced by the checks."""
-import os, subprocess, sys
+"""setup: build the static Lean library (all Core and Props modules). Gen files are produced by the checks."""
+import glob, os, sys
 sys.path.insert(0, os.path.dirname(os.path.abspath(__file__)))
 import common
-r = common.lake_build(["Bptk"])
+mods = []
+for d in ("Core", "Proofs", "Props"):
+    for f in sorted(glob.glob(os.path.join(common.LEAN, "Bptk", d, "*.lean"))):
+        mods.append(f"Bptk.{d}." + os.path.basename(f)[:-5])
+r = common.lake_build(mods)
 print(r["log"][-3000:])
+print("setup: built", len(mods), "modules; ok =", r["ok"])
 sys.exit(0 if r["ok"] else 1)
